@@ -206,6 +206,29 @@ def install(handler, g):
             second = log[len(first):]
             bad = first != ["b1", "b2"] or second != ["b1", "b2"]
             return bad, f"backends applied on the first compilation: {first}; on a re-compilation: {second}"
+        if "user_code_forward" in ob or "root=torch_nn_layer" in ob:
+            # a root module that is itself a torch.nn layer: is the backend invoked at all?
+            from unit_scaling.transforms.utils import apply_transform
+
+            msgs = []
+            for mk in (lambda: nn.Linear(3, 3), lambda: nn.Sequential(nn.Linear(3, 3), nn.ReLU())):
+                calls = []
+
+                def counting_backend(gm, example_inputs):
+                    calls.append([n.op for n in gm.graph.nodes])
+                    return gm
+
+                m0 = mk()
+                m = apply_transform(m0, counting_backend)
+                x = torch.randn(2, 3)
+                y = m(x)
+                if not calls:
+                    msgs.append(f"root {type(m0).__name__}: the backend was never invoked (TorchDynamo did not trace the module)")
+                elif not torch.equal(y, m0(x)):
+                    msgs.append(f"root {type(m0).__name__}: the identity backend changed the result")
+                if not isinstance(m, type(m0)):
+                    msgs.append(f"root {type(m0).__name__}: the result is not an instance of the source class")
+            return bool(msgs), "; ".join(msgs) or "the backend is invoked for root torch.nn layers"
         if "dynamo_cache_reset" in ob:
             # more transformed copies of ONE module class than TorchDynamo's recompile limit: is the
             # backend still applied to every copy?
